@@ -3,7 +3,8 @@ import CelloGen.File
 import Driver.Common
 /- driver for engine `file` (C20): interprets the same op files as harness/h_file.c on the model
    (`Cello.File.step` over the reference stdio `refIO`, with the File_Close facts read from the source by the
-   translator) and prints the same `O` lines. -/
+   translator) and prints the same `O` lines.  Process objects (ops `p…`): the same `step` over the reference pipe
+   library `pipeIO`, with the Process_Close facts read from the source (`pcfg`); `drop` (the collector closes) = `MOp.del`. -/
 open Cello.File
 
 namespace Driver.FileDrv
@@ -17,6 +18,13 @@ def posLimit : Nat := 1048576
 
 def cfg : Cfg := ⟨CelloGen.File.closeGuarded, CelloGen.File.closeDropsAlways⟩
 
+/-- the two facts about Process_Close (fix 51c301c), read from the source by the translator -/
+def pcfg : Cfg := ⟨CelloGen.File.procCloseGuarded, CelloGen.File.procCloseDropsAlways⟩
+
+def nProc : Nat := 4
+def nPStack : Nat := 2
+def pCap : Nat := 65536
+
 /-- the `with_in` macro as the translator read it from include/Cello.h: which expression the step clause stops -/
 def cfgW : WithCfg := ⟨if CelloGen.File.withStopsBound then .bound else .source⟩
 
@@ -26,6 +34,8 @@ structure Sys where
   depth : Nat := 0
   nontrivial : Nat := 0
   ev : List WEv := []                    -- what the with loops did (the model's own protocol check runs over this)
+  pm : Multi PRef := ⟨PRef.init, [(0, none), (1, none)], []⟩   -- the Process objects over the reference pipe library
+  pInWith : List Nat := []
 
 def Sys.init : Sys := { m := ⟨Ref.init, [(0, none), (1, none), (2, none), (3, none)], []⟩ }
 
@@ -139,6 +149,50 @@ def simple (s : Sys) (o : Nat) (name : String) (op : MOp) (showRet : Option (Val
     emit s' o name (excText r.out) extra r.calls
     return s'
 
+/-! Process objects -/
+
+def Sys.pobj (s : Sys) (o : Nat) : Option (Option Handle) := lookup o s.pm.objs
+
+def Sys.pstream (s : Sys) (o : Nat) : Option PStream :=
+  match s.pobj o with
+  | some (some h) => lookup h s.pm.lib.streams
+  | _ => none
+
+def pstText (s : Sys) (o : Nat) : String :=
+  match s.pobj o with
+  | none => "none"
+  | some none => "closed"
+  | some (some h) =>
+    match lookup h s.pm.lib.streams with
+    | none => "STALE"
+    | some st => s!"p{h}:{if st.eof then 1 else 0}"
+
+def pemit (s : Sys) (o : Nat) (op : String) (exc : String) (extra : String) (calls : List Call) : IO Unit :=
+  IO.println s!"O {op} exc={exc}{if extra.isEmpty then "" else " " ++ extra} st={pstText s o} calls={showCallsP calls} plive={s.pm.lib.streams.length}"
+
+def Sys.pexec (s : Sys) (o : Nat) (mop : MOp) : Option (Sys × R PRef Val) :=
+  match s.pm.stepR pipeIO pcfg o mop with
+  | none => none
+  | some (r, keep) => some ({ s with pm := s.pm.apply o r keep }, r)
+
+def pbusy (s : Sys) (c : Nat) (except : Option Nat) : Bool :=
+  c ≥ cmdCat && s.pm.objs.any (fun (o, f) => some o ≠ except && match f with
+    | some h => (match lookup h s.pm.lib.streams with | some st => st.cmd = c | none => false)
+    | none => false)
+
+def psimple (s : Sys) (o : Nat) (name : String) (op : MOp) (extra : R PRef Val → String) : IO Sys := do
+  match s.pexec o op with
+  | none => IO.println "O bad-op"; return s
+  | some (s', r) =>
+    pemit s' o name (excText r.out) (extra r) r.calls
+    return s'
+
+def retOf (g : Val → String) (r : R PRef Val) : String := "ret=" ++ (match r.out with | .ok v => g v | _ => "-1")
+def noExtra (_ : R PRef Val) : String := ""
+
+def parsePMode (t : String) : Option Mode :=
+  if t = "r" then some .r else if t = "w" then some .w else if t = "r+" then some .rp else if t = "x" then some .bad else none
+
 partial def runRange (lines : Array String) (lo hi : Nat) (s : Sys) : IO Sys := do
   let mut i := lo
   let mut s := s
@@ -155,6 +209,7 @@ where
     match toks with
     | [] => bad
     | op :: args =>
+    if isProcOp op then return ← execProc lines i hi s op args
     if op = "dump" || op = "rm" then
       match args with
       | [ks] =>
@@ -259,6 +314,11 @@ where
     if op = "del" then
       if o < nStack || nargs ≠ 0 || s.inWith.contains o then return ← bad
       return (← simple s o "del" .del none, i + 1)
+    else if op = "drop" then
+      -- the collector as the closer: GC_Sweep → File_Del, then the object is gone — the model's `del`
+      if o < nStack || nargs ≠ 0 || s.inWith.contains o then return ← bad
+      if onFull s o then IO.println "O drop unsup"; return (s, i + 1)
+      return (← simple s o "drop" .del none, i + 1)
     else if op = "open" then
       match rest with
       | [ks, ms] =>
@@ -357,6 +417,161 @@ where
         return (s', i + 1)
     else bad
 
+  isProcOp (op : String) : Bool :=
+    ["pgen", "pnew", "pnew0", "pnew1", "popen", "pclose", "pstop", "pdel", "pwith", "pread", "pwrite", "peof", "ptell", "pseek",
+     "pflush", "pprint", "pscan"].contains op
+
+  /-- the ops on Process objects: the same wrappers (`Cello.File.step`) over the reference pipe library, with the facts
+      about Process_Close read from the source -/
+  execProc (lines : Array String) (i hi : Nat) (s : Sys) (op : String) (args : List String) : IO (Sys × Nat) := do
+    let bad : IO (Sys × Nat) := do IO.println "O bad-op"; return (s, i + 1)
+    match args with
+    | [] => bad
+    | os :: rest =>
+    if op = "pgen" then
+      match os.toNat?, rest with
+      | some k, [ls, ss] =>
+        match ls.toNat?, ss.toNat? with
+        | some len, some seed =>
+          if k ≥ nPipeIn || len > pCap then return ← bad
+          if pbusy s (cmdCat + k) none then IO.println "O pgen busy"; return (s, i + 1)
+          let d := genBytes len (UInt64.ofNat seed)
+          IO.println s!"O pgen {k} len={len} h={(fnv d).toNat}"
+          return ({ s with pm := { s.pm with lib := { s.pm.lib with inputs := insert k d s.pm.lib.inputs } } }, i + 1)
+        | _, _ => bad
+      | _, _ => bad
+    else
+    match os.toNat? with
+    | none => bad
+    | some o =>
+    if o ≥ nProc then return ← bad
+    if op = "pnew" || op = "pnew0" || op = "pnew1" then
+      if o < nPStack || (s.pobj o).isSome then return ← bad
+      if op = "pnew0" then
+        if rest.length ≠ 0 then return ← bad
+        return (← psimple s o op (.pnew none) noExtra, i + 1)
+      if op = "pnew1" then
+        match rest with
+        | [cs] =>
+          match cs.toNat? with
+          | some c => if !cmdKnown c then return ← bad
+                      return (← psimple s o op (.pnew none) noExtra, i + 1)
+          | none => bad
+        | _ => bad
+      else
+      match rest with
+      | [cs, ms] =>
+        match cs.toNat?, parsePMode ms with
+        | some c, some m =>
+          if !cmdKnown c then return ← bad
+          if pbusy s c (some o) then IO.println "O pnew busy"; return (s, i + 1)
+          return (← psimple s o "pnew" (.pnew (some (c, m))) noExtra, i + 1)
+        | _, _ => bad
+      | _ => bad
+    else
+    if (s.pobj o).isNone then return ← bad
+    let st := s.pstream o
+    let wr := match st with | some x => x.mode = .w | none => false
+    let rd := match st with | some x => x.mode = .r | none => false
+    let sink := match st with | some x => x.cmd ≥ cmdCat | none => false
+    let wlen := match st with | some x => x.data.length | none => 0
+    let nargs := rest.length
+    if op = "pdel" then
+      if o < nPStack || nargs ≠ 0 || s.pInWith.contains o then return ← bad
+      return (← psimple s o "pdel" .del noExtra, i + 1)
+    else if op = "popen" then
+      match rest with
+      | [cs, ms] =>
+        match cs.toNat?, parsePMode ms with
+        | some c, some m =>
+          if !cmdKnown c then return ← bad
+          if pbusy s c (some o) then IO.println "O popen busy"; return (s, i + 1)
+          return (← psimple s o "popen" (.op (.open c m)) noExtra, i + 1)
+        | _, _ => bad
+      | _ => bad
+    else if op = "pclose" then
+      if nargs ≠ 0 then return ← bad
+      return (← psimple s o "pclose" (.op .close) noExtra, i + 1)
+    else if op = "pstop" then
+      if nargs ≠ 0 then return ← bad
+      return (← psimple s o "pstop" (.op .stop) noExtra, i + 1)
+    else if op = "pwith" then
+      match rest with
+      | [lvs, ns] =>
+        match parseLeave lvs, ns.toNat? with
+        | some leave, some n =>
+          if s.depth > 16 then return ← bad
+          let stop := min (i + 1 + n) hi
+          let ic := initClause pipeIO pcfg s.pm (.var o)
+          let s0 := { s with pm := ic.m, ev := s.ev ++ ic.evs }
+          pemit s0 o "pwith-enter" "none" "" ic.calls
+          let s1 ← runRange lines (i + 1) stop { s0 with pInWith := o :: s0.pInWith, depth := s0.depth + 1 }
+          let s1 := { s1 with pInWith := s1.pInWith.drop 1, depth := s1.depth - 1 }
+          match leave with
+          | .throw => pemit s1 o "pwith-abort" "ValueError" "" []; return ({ s1 with ev := s1.ev ++ [.left leave] }, stop)
+          | .brk => pemit s1 o "pwith-break" "none" "" []; return ({ s1 with ev := s1.ev ++ [.left leave] }, stop)
+          | .ret => pemit s1 o "pwith-return" "none" "" []; return ({ s1 with ev := s1.ev ++ [.left leave] }, stop)
+          | _ =>
+            let c := stepClause pipeIO pcfg cfgW s1.pm (.var o) o
+            let s2 := { s1 with pm := c.m, ev := s1.ev ++ c.evs }
+            pemit s2 o "pwith-exit" (excText c.out) "" c.calls
+            return (s2, stop)
+        | _, _ => bad
+      | _ => bad
+    else if op = "pseek" then
+      match rest with
+      | [offs, whs] =>
+        match offs.toInt?, parseWhence whs with
+        | some off, some wh => return (← psimple s o "pseek" (.op (.seek off wh)) noExtra, i + 1)
+        | _, _ => bad
+      | _ => bad
+    else if op = "ptell" then
+      if nargs ≠ 0 then return ← bad
+      return (← psimple s o "ptell" (.op .tell) (retOf (fun v => match v with | .nat n => toString n | _ => "?")), i + 1)
+    else if op = "pflush" then
+      if nargs ≠ 0 then return ← bad
+      if rd then IO.println "O pflush unsup"; return (s, i + 1)
+      return (← psimple s o "pflush" (.op .flush) noExtra, i + 1)
+    else if op = "peof" then
+      if nargs ≠ 0 then return ← bad
+      return (← psimple s o "peof" (.op .eof) (retOf (fun v => match v with | .bool b => (if b then "1" else "0") | _ => "?")), i + 1)
+    else if op = "pread" then
+      match rest with
+      | [ns] =>
+        match ns.toNat? with
+        | none => bad
+        | some n =>
+          if n > maxIO then return ← bad
+          return (← psimple s o "pread" (.op (.read n)) (fun r =>
+            let (ret, data) := match r.out with | .ok (.data num d) => (toString num, d) | _ => ("-1", [])
+            s!"ret={ret} got={data.length} h={(fnv data).toNat}"), i + 1)
+      | _ => bad
+    else if op = "pwrite" then
+      match rest with
+      | [ls, ss] =>
+        match ls.toNat?, ss.toNat? with
+        | some len, some seed =>
+          if len > pCap then return ← bad
+          if wr && (!sink || wlen + len > pCap) then IO.println "O pwrite unsup"; return (s, i + 1)
+          return (← psimple s o "pwrite" (.op (.write (genBytes len (UInt64.ofNat seed))))
+            (retOf (fun v => match v with | .nat n => toString n | _ => "?")), i + 1)
+        | _, _ => bad
+      | _ => bad
+    else if op = "pprint" then
+      match rest with
+      | [vs] =>
+        match vs.toInt? with
+        | none => bad
+        | some v =>
+          if rd || (wr && (!sink || wlen + 32 > pCap)) then IO.println "O pprint unsup"; return (s, i + 1)
+          return (← psimple s o "pprint" (.op (.print (printIntFrags v))) (retOf (fun x => match x with | .int n => toString n | _ => "?")), i + 1)
+      | _ => bad
+    else if op = "pscan" then
+      if nargs ≠ 0 then return ← bad
+      if st.isSome || (s.pobj o) ≠ some none then IO.println "O pscan unsup"; return (s, i + 1)
+      return (← psimple s o "pscan" (.op .scanInt) (fun _ => "val=-777"), i + 1)
+    else bad
+
   /-- `with (f in <src>) { the next n ops }`: the model's init clause, the body, then — unless the body was left by break or
       an exception — the model's step clause (`Cello.File.initClause` / `stepClause`, the same functions `execStmt` is made of) -/
   runWith (lines : Array String) (i hi : Nat) (s : Sys) (o : Nat) (src : Src) (leave : Leave) (n : Nat) : IO (Sys × Nat) := do
@@ -404,6 +619,22 @@ def finish (s : Sys) : Sys := Id.run do
         | none => pure ()
   return s
 
+/-- … and the Process objects, before the Files (the harness does the same) -/
+def finishP (s : Sys) : Sys := Id.run do
+  let mut s := s
+  for k in [0:nProc] do
+    let o := nProc - 1 - k
+    match s.pobj o with
+    | none => pure ()
+    | some f =>
+      let mop : Option MOp := if o ≥ nPStack then some .del else if f.isSome then some (.op .close) else none
+      match mop with
+      | none => pure ()
+      | some mop => match s.pexec o mop with
+        | some (s', _) => s := s'
+        | none => pure ()
+  return s
+
 end Driver.FileDrv
 
 open Driver.FileDrv in
@@ -411,14 +642,18 @@ def main (args : List String) : IO Unit := do
   let raw ← Driver.inputLines args
   let lines := raw.filter (fun l => !Driver.isSkippable l)
   let s ← runRange lines 0 lines.size Sys.init
-  let s := finish s
+  let s := finish (finishP s)
   let calls := s.m.log.map (fun p => p.2)
   let nOpen := (calls.filter isOpenOk).length
   let nFail := (calls.filter (fun c => match c with | .fopen _ _ none => true | _ => false)).length
   let nClose := (calls.filter isClose).length
   IO.println s!"O end fopen={nOpen} fail={nFail} fclose={nClose} live={s.lib.streams.length}"
+  let pcalls := s.pm.log.map (fun p => p.2)
+  let npFail := (pcalls.filter (fun c => match c with | .fopen _ _ none => true | _ => false)).length
+  IO.println s!"O pend popen={(pcalls.filter isOpenOk).length} fail={npFail} pclose={(pcalls.filter isClose).length} plive={s.pm.lib.streams.length}"
   -- the model's own verdict on its log (used when a proof no longer checks): every object's calls well bracketed
-  let okTrack := (List.range nObj).all (fun o => (track none (proj o s.m.log)).isSome)
+  let okTrack := (List.range nObj).all (fun o => (track none (proj o s.m.log)).isSome) &&
+    (List.range nProc).all (fun o => (track none (proj o s.pm.log)).isSome) && (gtrack [] (untag s.pm.log)).isSome
   IO.println s!"R bracketed={okTrack}"
   -- … and over handles, for the log of the whole process (rejects a handle used by two objects)
   IO.println s!"R gbracketed={(gtrack [] (untag s.m.log)).isSome} fresh={freshCalls [] (untag s.m.log)}"
